@@ -64,7 +64,13 @@ func fmaCase(c *Ctx, vals []*Opnd, part []int, prec uint32, mode uint8, pre int)
 			c.Known(cls, key(), msg)
 			return
 		}
-		c.Fail(key(), msg)
+		if isNoAlias(part) && pre == preFresh {
+			c.FailT(key(), msg, func() string {
+				return goTestArith("FMA", []string{"x", "y", "u"}, vals, prec, mode, exp, true)
+			})
+		} else {
+			c.Fail(key(), msg)
+		}
 		return
 	}
 	if !exp.NaN && exp.Form == fFinite {
@@ -87,6 +93,15 @@ func fmaCase(c *Ctx, vals []*Opnd, part []int, prec uint32, mode uint8, pre int)
 }
 
 var noAlias3 = []int{0, 1, 2, 3}
+
+func isNoAlias(part []int) bool {
+	for i, c := range part {
+		if c != i {
+			return false
+		}
+	}
+	return true
+}
 
 // fmaKnownClass recognises the recorded finding "fma-product-out-of-range":
 // input class = finite x, y whose exact product has a decimal exponent outside
